@@ -59,7 +59,7 @@ theorem crsd_write_after_close_refused (c : Cfg α) (s : State α) (h : s.closed
     (hop : ∀ (_ : op = .close), False) : step c s op = (s, .refused) := C09.write_after_close_refused c s h op hop
 
 theorem crsd_refused_keeps_file (c : Cfg α) (s : State α) (op : Op α) (h : (step c s op).2 = .refused) :
-    C09.SameData s (step c s op).1 := C09.refused_keeps_file c s op h
+    (step c s op).1 = s := C09.refused_keeps_file c s op h
 
 theorem crsd_fo_log_shape (c : Cfg α) (ops : List (Op α)) :
     ((run c (init c) ops).hdrWritten = false ∧ foLog (run c (init c) ops) = []) ∨
